@@ -203,6 +203,9 @@ func TestC17_Grid(t *testing.T) {
 	c := ev.New("C17", "grid", "exploration")
 	t.Cleanup(c.Flush)
 	c.Rule("fixed dataset (points with z and fields, polygon, feature with escaped properties, strings, hash, bounds with expiry, ids / keys / field names / values with quotes, backslashes, control bytes, U+2028, HTML-sensitive characters, non-ASCII and invalid UTF-8; two hooks and two channels with metas) and a complete enumeration of: SCAN/SEARCH x 7 outputs x 14 modifiers, NEARBY x 7 outputs x 10 modifiers (with and without radius), WITHIN/INTERSECTS x 7 outputs x modifiers x 7 area kinds (+MVT, CLIP), GET x 9 ids x {WITHFIELDS} x 5 kinds, SET/FSET RETURN kinds, TTL/EXISTS/FGET/FEXISTS/JGET per id, TYPE/BOUNDS/STATS/KEYS/HOOKS/CHANS, SERVER/INFO/ROLE/CONFIG GET/CLIENT, the script pool under EVAL and EVALRO, TEST over 6x6 areas with WITHIN/INTERSECTS/CLIP, TIMEOUT wrappers and one error of every class; every command is sent over each of the 7 lanes (transports that cannot carry its arguments fall back to plain connections). Oracles as in the table sub-check. Non-trivial: JSON payload with an escape or a non-empty array/object; distinct by (command line, outcome, lane).")
+	if ev.Shard() != 0 {
+		t.Skip("the enumeration runs on shard 0 only")
+	}
 	ex := exclusionsNow()
 	var p program
 	p.State = "grid"
